@@ -123,6 +123,14 @@ Fails(e, x) ==
          THEN F(e.macn <= MaxWork, e, "C04", "more than 21 HMAC evaluations in one validation") ELSE <<>>)
      \o StageFails(e, x)
 
+(* ---- C14 through the real entry point: generation succeeds exactly for usable suites and admissible inputs ---- *)
+AdmitFails(e) ==
+    IF e.op # "GenerateOCRA" \/ B32!Region(e.secret) # "accept" \/ ~Returned(Reply(e)) THEN <<>>
+    ELSE LET cfg == EffCfg(e.x.su) IN
+         IF ~O!EnumsInDomain(cfg) THEN <<>>
+         ELSE F((e.kind = "value") <=> (O!SuiteUsable(cfg) /\ O!Admissible(cfg, e.x.in)), e, "C14",
+                "generation succeeds although the suite is unusable or the input inadmissible, or fails although both are fine")
+
 (* ---- C15: a suite's configuration means what its string says ---- *)
 SuiteFails(e) ==
     IF e.op # "NewRawSuite" THEN <<>>
